@@ -62,7 +62,7 @@ m("gc-del-stopped-ignored-again", "src/GC.c",
   "  struct GC* gc = self;\n  if (not gc->running) { return; }\n  GC_Rem_Ptr(gc, key);",
   ["C06"], "reverts the 'del while stopped' repair")
 m("gc-box-pending-entry-cleared", "src/GC.c",
-  "      gc->freelist[i] = (var)((uintptr_t)ptr | 1);\n      dealloc(destruct(ptr));\n      return;",
+  "      gc->freelist[i] = (var)((uintptr_t)ptr | 1);\n      destruct(ptr);\n      return;",
   "      gc->freelist[i] = (var)((uintptr_t)ptr | 1);\n      return;",
   ["C06"], "an owned object pending in the sweep is dropped when its owner deletes it")
 # ---------------- Table ----------------
